@@ -60,6 +60,90 @@ pub const DROP_BEFORE_WAIT: u32 = 42;
 /// `drop`: wait is over, about to free the join block
 pub const DROP_BEFORE_DEALLOC: u32 = 43;
 
+/// any party: about to access the hand-shake flag of a join block (load, store, swap,
+/// compare-exchange, fetch-or/and through the `AtomicBool` below), `arg` = address of the flag
+pub const FLAG_ACCESS: u32 = 45;
+
+/// Drop-in replacement for the subset of `core::sync::atomic::AtomicBool` a hand-shake flag may be
+/// used with: every access first announces itself with `point(FLAG_ACCESS, address)`, then performs
+/// the real operation with the real ordering on the real atomic.
+#[repr(transparent)]
+pub struct AtomicBool {
+    inner: core::sync::atomic::AtomicBool,
+}
+
+impl AtomicBool {
+    #[inline]
+    #[must_use]
+    pub const fn new(v: bool) -> Self {
+        Self {
+            inner: core::sync::atomic::AtomicBool::new(v),
+        }
+    }
+
+    #[inline]
+    fn announce(&self) {
+        point(FLAG_ACCESS, core::ptr::from_ref::<Self>(self) as usize);
+    }
+
+    #[inline]
+    #[must_use]
+    pub const fn as_ptr(&self) -> *mut bool {
+        self.inner.as_ptr()
+    }
+
+    pub fn load(&self, order: Ordering) -> bool {
+        self.announce();
+        self.inner.load(order)
+    }
+
+    pub fn store(&self, val: bool, order: Ordering) {
+        self.announce();
+        self.inner.store(val, order);
+    }
+
+    pub fn swap(&self, val: bool, order: Ordering) -> bool {
+        self.announce();
+        self.inner.swap(val, order)
+    }
+
+    pub fn fetch_or(&self, val: bool, order: Ordering) -> bool {
+        self.announce();
+        self.inner.fetch_or(val, order)
+    }
+
+    pub fn fetch_and(&self, val: bool, order: Ordering) -> bool {
+        self.announce();
+        self.inner.fetch_and(val, order)
+    }
+
+    /// # Errors
+    /// The value found, if it differs from `current`.
+    pub fn compare_exchange(
+        &self,
+        current: bool,
+        new: bool,
+        success: Ordering,
+        failure: Ordering,
+    ) -> Result<bool, bool> {
+        self.announce();
+        self.inner.compare_exchange(current, new, success, failure)
+    }
+
+    /// # Errors
+    /// The value found, if it differs from `current` (never fails spuriously here).
+    pub fn compare_exchange_weak(
+        &self,
+        current: bool,
+        new: bool,
+        success: Ordering,
+        failure: Ordering,
+    ) -> Result<bool, bool> {
+        self.announce();
+        self.inner.compare_exchange(current, new, success, failure)
+    }
+}
+
 /// Callback type: `(point id, argument)`.
 pub type PointFn = fn(u32, usize);
 
